@@ -150,6 +150,10 @@ def list_subqueries(segment: BaseSegment) -> list[SubQueryTuple]:
                                 else None
                             )
                             subquery.append(SubQueryTuple(bracketed_segment, alias))
+                # scalar subquery used directly as a column: SELECT (SELECT max(c) FROM t) AS m
+                for bracketed in expression.get_children("bracketed"):
+                    if is_subquery(bracketed):
+                        subquery.append(SubQueryTuple(bracketed, None))
             elif function := select_clause_element.get_child("function"):
                 for bracketed in function.recursive_crawl("bracketed"):
                     if is_subquery(bracketed):
@@ -167,7 +171,7 @@ def list_subqueries(segment: BaseSegment) -> list[SubQueryTuple]:
                     extract_identifier(as_segment) if as_segment else None,
                 )
             ]
-    elif segment.type == "where_clause":
+    elif segment.type in ["where_clause", "having_clause"]:
         bracketeds = []
         if expression := segment.get_child("expression"):
             bracketeds = expression.get_children("bracketed")
